@@ -55,7 +55,8 @@ Record cfg := {
   c_maxkey : N;
   c_maxval : N;
   c_ext0 : bool;            (* Options.UseExternalCommitAllowance *)
-  c_maxconc : N             (* Options.MaxConcurrency: size of the pool of tx holders *)
+  c_maxconc : N;            (* Options.MaxConcurrency: size of the pool of tx holders *)
+  c_prealloc : bool         (* Options.PreallocFiles: a preallocated file is never truncated *)
 }.
 
 (* ---- transactions as submitted ---- *)
@@ -99,6 +100,19 @@ Fixpoint tl_read (log : list wr) (off : N) : option wr :=
   | w :: rest =>
       if w_hdr_off w =? off then Some w
       else match tl_read rest off with
+           | Some x => if w_disjoint w x then Some x else None
+           | None => None
+           end
+  end.
+
+(* what OpenWith's scan of the pre-committed backlog finds at `pos`: the write that STARTS there (with
+   embedded values: 2-byte length, the values, then the record), unless a later write overlaps it *)
+Fixpoint tl_start (log : list wr) (pos : N) : option wr :=
+  match log with
+  | [] => None
+  | w :: rest =>
+      if w_off w =? pos then Some w
+      else match tl_start rest pos with
            | Some x => if w_disjoint w x then Some x else None
            | None => None
            end
@@ -274,10 +288,14 @@ Definition read_at (s : state) (off size : N) : res rec :=
   end.
 
 (* ReadTx(k) (allowPrecommitted = false) *)
+(* checkTxID: the record found where the commit log locates tx k must carry id k *)
+Definition check_id (k : N) (r : res rec) : res rec :=
+  do x <- r; if h_id (r_hdr x) =? k then Ok x else Err ECorruptedTx.
+
 Definition read_tx (s : state) (k : N) : res rec :=
   if (k =? 0) || (s_inmem s <? k) || (s_committed s <? k) then Err ENotFound else
   match clog_entry s k with
-  | Some ce => read_at s (ce_off ce) (ce_size ce)
+  | Some ce => check_id k (read_at s (ce_off ce) (ce_size ce))
   | None => Err ENotFound
   end.
 
@@ -286,12 +304,12 @@ Definition read_tx_pre (s : state) (k : N) : res rec :=
   if (k =? 0) || (s_inmem s <? k) then Err ENotFound else
   if k <=? s_committed s then
     match clog_entry s k with
-    | Some ce => read_at s (ce_off ce) (ce_size ce)
+    | Some ce => check_id k (read_at s (ce_off ce) (ce_size ce))
     | None => Err ENotFound
     end
   else
     do pe <- pb_read_ahead (s_buf s) (k - s_committed s - 1);
-    read_at s (pe_off pe) (pe_size pe).
+    check_id k (read_at s (pe_off pe) (pe_size pe)).
 
 (* ReadValue(entry) *)
 Definition read_value (s : state) (e : entry) : res bytes :=
@@ -424,13 +442,16 @@ Definition upd_tl (s : state) (t : list wr) (nf : N) : state :=
      s_aht := s_aht s; s_committed := s_committed s; s_calh := s_calh s; s_inmem := s_inmem s;
      s_ialh := s_ialh s; s_ptls := s_ptls s; s_tlnf := nf; s_buf := s_buf s; s_ext := s_ext s;
      s_allowed := s_allowed s; s_whub := s_whub s; s_pend := s_pend s; s_wait := s_wait s |}.
-(* txLog.SetOffset(precommittedTxLogSize): whatever was appended at or beyond that offset and is still
-   in the write buffer (the bytes of an attempt that failed after its append) is dropped; what had
-   reached the file stays there until overwritten *)
+(* txLog.SetOffset(precommittedTxLogSize): whatever was appended at or beyond that offset (the bytes of an
+   attempt that failed after its append, stale records found by a reopen) is dropped *)
 Definition tl_set_offset (s : state) : state :=
   let k := N.to_nat (s_tlnf s) in
-  let kept := filter (fun w => negb (s_ptls s <=? w_off w)) (firstn k (s_txlog s)) in
-  upd_tl s (kept ++ skipn k (s_txlog s)) (lenN kept).
+  let beyond := fun w => negb (s_ptls s <=? w_off w) in
+  let kept := filter beyond (firstn k (s_txlog s)) in
+  (* below the flushed size the file is truncated (chunk files behind the offset are removed), unless
+     it is preallocated: then what had reached the file stays there until overwritten *)
+  let rest := if c_prealloc (s_cfg s) then skipn k (s_txlog s) else filter beyond (skipn k (s_txlog s)) in
+  upd_tl s (kept ++ rest) (lenN kept).
 (* txLog.Flush() *)
 Definition tl_flush (s : state) : state := upd_tl s (s_txlog s) 0.
 (* txLog.Append *)
@@ -618,15 +639,18 @@ Definition discard (s : state) (n : N) : state * out :=
 
 (* ---- Close + OpenWith (clean) ---------------------------------------------------------- *)
 (* reload of the precommitted transactions: scan the tx log from the end of the last committed
-   record while records chain by (ID, PrevAlh); returns (buffer, id, alh, end offset) *)
+   record while the writes found there chain by (ID, PrevAlh); returns (buffer, id, alh, end offset) *)
 Fixpoint reload (fuel : nat) (log : list wr) (b : pbuf) (id : N) (alh : bytes) (pos : N)
   : res (pbuf * N * bytes * N) :=
   match fuel with
   | O => Ok (b, id, alh, pos)
   | S f =>
-      match tl_read log pos with
+      match tl_start log pos with
       | None => Ok (b, id, alh, pos)
       | Some w =>
+          (* readEmbeddedValuesPrefix: the 2-byte length wraps for 64 KiB of values or more; the record
+             is then not where the scan looks for it *)
+          if (0 <? len (w_pre w)) && (2 ^ 16 <=? len (w_pre w) - st_sszSize) then Ok (b, id, alh, pos) else
           let r := w_rec w in
           (* Tx.readFrom validates the stored Alh against the header *)
           match alh_of (r_hdr r) with
@@ -634,12 +658,14 @@ Fixpoint reload (fuel : nat) (log : list wr) (b : pbuf) (id : N) (alh : bytes) (
               if negb (list_eq_dec_b a (r_alh r)) then Ok (b, id, alh, pos) else
               if negb (h_id (r_hdr r) =? id + 1) || negb (list_eq_dec_b (h_prevalh (r_hdr r)) alh)
               then Ok (b, id, alh, pos) else
-              let pe := {| pe_id := id + 1; pe_alh := a; pe_off := pos; pe_size := rec_size r |} in
+              (* embeddedValuesMatch / precommittedValuesReadable hold for what performPrecommit wrote
+                 and a clean Close flushed *)
+              let pe := {| pe_id := id + 1; pe_alh := a; pe_off := w_hdr_off w; pe_size := rec_size r |} in
               let put := match pb_put b pe with
                          | Err _ => pb_put (pb_grow b (2 * pb_size b)) pe
                          | x => x end in
               do b' <- put;
-              reload f log b' (id + 1) a (pos + rec_size r)
+              reload f log b' (id + 1) a (w_end w)
           | _ => Ok (b, id, alh, pos)
           end
       end
